@@ -113,7 +113,8 @@ impl<'s> FamVisitor for Runner<'s> {
 
         // ---- world
         let n = payloads.len() as u64;
-        let budget = s.src.len() as u64 + s.caller.len() as u64 + 8 * (n + 1) + 32;
+        // implementation-agnostic: even a reader that asked for one byte per poll would stay below this
+        let budget = s.src.len() as u64 + s.caller.len() as u64 + 8 * (n + 1) + 64 + 2 * cut_at as u64;
         let core = SrcCore::new(stream, s.src.clone(), layout, budget, self.obs.clone());
         core.borrow_mut().scribble = s.scribble;
         let mut reader = AsyncReader::with_buffer(SimAsyncSource(core.clone()), garbage(s.init_buf as usize));
@@ -513,9 +514,10 @@ fn generate_single(r: &mut Rng, tier: Tier) -> C15 {
     let family = *r.pick(IO_TYS);
     let big = r.chance(1, if tier == Tier::Thorough { 40 } else { 400 });
     let max_frames = if tier == Tier::Thorough && r.chance(1, 4) { 20 } else { 8 };
-    let nframes = if big { r.range(1, 2) } else { 1 + r.below(max_frames) } as usize;
+    let marathon = !big && r.chance(1, 150);
+    let nframes = if big { r.range(1, 2) } else if marathon { r.range(257, 600) } else { 1 + r.below(max_frames) } as usize;
     // size profile of this run
-    let profile = r.below(4);
+    let profile = if marathon { 0 } else { r.below(4) };
     let values: Vec<ValSpec> = (0..nframes)
         .map(|_| {
             let size = match profile {
@@ -674,6 +676,15 @@ impl Property for P15 {
                     src.push(Step::Err(kind));
                     out.push(C15 { src: src.clone(), ..base(fam, vals.clone()) });
                     src.extend(std::iter::repeat(Step::Xfer(1)).take(len - i));
+                    out.push(C15 { src, ..base(fam, vals.clone()) });
+                }
+            }
+            // (b2) two errors in a row (same and different kinds) before every byte
+            for (k1, k2) in [(ErrKind::WouldBlock, ErrKind::WouldBlock), (ErrKind::Interrupted, ErrKind::Other), (ErrKind::TimedOut, ErrKind::Interrupted)] {
+                for i in 0..=len {
+                    let mut src = vec![Step::Xfer(1); i];
+                    src.push(Step::Err(k1));
+                    src.push(Step::Err(k2));
                     out.push(C15 { src, ..base(fam, vals.clone()) });
                 }
             }
